@@ -100,6 +100,16 @@ def run(ctx):
                 batches = [b[np.argsort(b[:, 0], kind="stable")] for b in batches]     # ordered rows: the tail is not a fair sample
                 seeds = [int(crng.integers(0, 2**31)) for _ in batches]
                 ctx.count(f"{name}:huge-batch-cases")
+            if name == "KdqTreeBatch" and k % 6 == 4:
+                # a HUGE reference (tens of thousands of rows, ordered) followed by ordinary test batches: sub-sampled or blocked
+                # construction of the reference summary (tree / histograms) must not depend on where a row stands
+                d = batches[0].shape[1]
+                sizes = [int(crng.integers(22000, 32000)), 600, 600]
+                batches = [np.round(crng.normal(0.15 * i, 1, (m, d)) * 64) / 64 for i, m in enumerate(sizes)]
+                batches = [b[np.argsort(b[:, 0], kind="stable")] for b in batches]
+                seeds = [int(crng.integers(0, 2**31)) for _ in batches]
+                cfg = dict(cfg, count_ubound=100)        # a few hundred leaves: the public tree frame stays cheap to read
+                ctx.count(f"{name}:huge-reference-cases")
             runner = {"HDDDM": run_hdm, "CDBD": run_hdm, "KdqTreeBatch": run_kdq, "NNDVI": run_nndvi}[name]
             try:
                 st0, ob0 = runner(fam, cfg, batches, seeds)
